@@ -95,6 +95,7 @@ type Profile struct {
 	CrossPkg  bool // bias towards several files, a sub-package first, and references across files
 	Collide   bool // add descriptors whose split names (path joined by "_") coincide
 	Clash     bool // add a message whose exposed oneof and a field get the same JSON property name
+	FlatCycle int  // >0: add a crafted cycle of that many messages each flattening the next (negative: with a chain leading into it)
 	OddPkg    bool // some package names APIFromImage cannot file: no version part, two version parts, two parts after the version
 }
 
@@ -203,6 +204,14 @@ func Generate(r *vh.Rand, p Profile, deps []*descriptorpb.FileDescriptorProto) *
 	}
 	if p.Supported {
 		repairSupported(c.Gen)
+	}
+	if p.FlatCycle != 0 {
+		n, lead := p.FlatCycle, false
+		if n < 0 {
+			n, lead = -n, true
+		}
+		addFlattenCycle(c.Gen[0], n, lead)
+		g.tag(fmt.Sprintf("flatten-cycle-crafted-%d", n))
 	}
 	return c
 }
@@ -1727,6 +1736,35 @@ func addCollision(fd *descriptorpb.FileDescriptorProto, withRule bool) {
 	fd.MessageType = append(fd.MessageType, col, colKind, colInner)
 }
 
+
+// addFlattenCycle appends messages Cyc0 .. Cyc<n-1>, each with a flattened object field of the next
+// (the last of the first) and one scalar; with lead, a message CycLead flattens Cyc0 (a chain into
+// the cycle, itself not on it). The reader must refuse the cycle (checkFlattenCycle); if it does not,
+// ClientProperties recurses without end.
+func addFlattenCycle(fd *descriptorpb.FileDescriptorProto, n int, lead bool) {
+	opt := descriptorpb.FieldDescriptorProto_LABEL_OPTIONAL.Enum()
+	flat := func(target string) *descriptorpb.FieldDescriptorProto {
+		fo := &descriptorpb.FieldOptions{}
+		proto.SetExtension(fo, ext_j5pb.E_Field, &ext_j5pb.FieldOptions{Type: &ext_j5pb.FieldOptions_Object{Object: &ext_j5pb.ObjectField{Flatten: true}}})
+		return &descriptorpb.FieldDescriptorProto{Name: proto.String("next"), Number: proto.Int32(1), Label: opt,
+			Type: descriptorpb.FieldDescriptorProto_TYPE_MESSAGE.Enum(), TypeName: proto.String("." + fd.GetPackage() + "." + target), Options: fo}
+	}
+	for i := 0; i < n; i++ {
+		fd.MessageType = append(fd.MessageType, &descriptorpb.DescriptorProto{
+			Name: proto.String(fmt.Sprintf("Cyc%d", i)),
+			Field: []*descriptorpb.FieldDescriptorProto{
+				flat(fmt.Sprintf("Cyc%d", (i+1)%n)),
+				{Name: proto.String(fmt.Sprintf("v%d", i)), Number: proto.Int32(2), Label: opt, Type: descriptorpb.FieldDescriptorProto_TYPE_STRING.Enum()},
+			},
+		})
+	}
+	if lead {
+		fd.MessageType = append(fd.MessageType, &descriptorpb.DescriptorProto{
+			Name:  proto.String("CycLead"),
+			Field: []*descriptorpb.FieldDescriptorProto{flat("Cyc0")},
+		})
+	}
+}
 
 // addOneofClash appends `message Clash { oneof foo_bar { option (j5.ext.v1.oneof).expose = true;
 // string a = 1; } string fooBar = 2; }`: protoc and protodesc accept it (JSON-name conflicts are
